@@ -23,6 +23,8 @@ class LRUStub {
 const precomputed = new Map()
 function key (config, code, file) { return JSON.stringify([config === undefined ? null : config, code, file]) }
 function provide (config, code, file, resp) { precomputed.set(key(config, code, file), resp) }
+// answers registered for a leaf are only needed while that leaf is judged (a long run would keep them all)
+function forget () { precomputed.clear() }
 const stats = { sync_calls: 0, precomputed_hits: 0 }
 
 function callSync (req) {
@@ -85,4 +87,4 @@ function loadMain () {
   return require(path.join(REPO, 'main.js'))
 }
 
-module.exports = { loadMain, provide, NativeStub, LRUStub, stats, REPO, callSync }
+module.exports = { loadMain, provide, forget, NativeStub, LRUStub, stats, REPO, callSync }
